@@ -195,6 +195,33 @@ M1 = [("z.z", b"zzzz-zzzz-zzzz")]
 MLONG = [("directory-with-a-long-name/and-a-member-with-a-long-name.txt", b"0123456789abcdef0123")]
 
 
+def forge_crc(prefix, target):
+    """prefix + 4 bytes whose CRC-32 is `target` (the stored digest then takes a boundary value: 0 is falsy in Python)"""
+    T = []
+    for i in range(256):
+        c = i
+        for _ in range(8):
+            c = (c >> 1) ^ 0xEDB88320 if c & 1 else c >> 1
+        T.append(c)
+    rev = {T[i] >> 24: i for i in range(256)}
+    x, idx = target ^ 0xFFFFFFFF, []
+    for _ in range(4):
+        i = rev[x >> 24]
+        idx.append(i)
+        x = ((x ^ T[i]) << 8) & 0xFFFFFFFF
+    c, out = zlib.crc32(prefix) ^ 0xFFFFFFFF, bytearray()
+    for i in reversed(idx):
+        b = (c ^ i) & 0xFF
+        out.append(b)
+        c = (c >> 8) ^ T[(c ^ b) & 0xFF]
+    data = bytes(prefix) + bytes(out)
+    assert zlib.crc32(data) == target, (zlib.crc32(data), target)
+    return data
+
+
+MCRC = [("crc0.bin", forge_crc(b"member whose CRC-32 is zero ", 0)), ("crcf.bin", forge_crc(b"all ones ", 0xFFFFFFFF))]
+
+
 def symlink_archive(encoded=False):
     """copy-coded archive holding a directory, two files and a symbolic link (writeall)"""
     import py7zr
@@ -234,6 +261,8 @@ def archive_specs(tier):
     py("copy+aes/raw", M2, "copy+aes", encoded=False)
     py("lzma2+aes/encrypted", M1, "lzma2+aes", encoded=True, header_enc=True, reduced=True)
     py("copy+aes/encrypted long name", MLONG, "copy+aes", encoded=True, header_enc=True, reduced=True)
+    py("copy/raw stored CRCs 0 and ffffffff", MCRC, "copy", encoded=False, reduced=True)
+    py("copy+aes/raw stored CRCs 0 and ffffffff", MCRC, "copy+aes", encoded=False, reduced=True)
     py("copy|lzma2|deflate/raw 3 folders", M1, "copy", encoded=False, sessions=[(M2[:1], "lzma2"), ([("q", b"qqqqqqqq")], "deflate")])
     S.append({"label": "symlink copy/raw", "kind": "symlink", "path": True})
     S.append({"label": "mini copy folder-crc/raw 2 folders", "kind": "mini", "folders": [("copy", M1), ("copy", M2[:1])],
@@ -1012,7 +1041,8 @@ def gen_flow_case(rng):
             data = b"t"                       # an empty link target is observed as "." (pathlib), not as ""
         tgt = rng.choice([0, 0, 1, 1, 1, 2, 2])
         r = rng.random()
-        crc = [] if r < 0.2 else [zlib.crc32(data)] if r < 0.85 else [zlib.crc32(data) ^ 0x10]
+        crc = [] if r < 0.2 else [zlib.crc32(data)] if r < 0.8 else [zlib.crc32(data) ^ 0x10] if r < 0.93 else \
+            [rng.choice([0, 0, 0xFFFFFFFF])]                   # boundary digests: a stored 0 is a digest like any other
         files.append([i, 1 if empty else 0, crc, 1 if symlink else 0, tgt])
         r = rng.random()
         if r < 0.82:
